@@ -197,6 +197,10 @@ def parse_value(txt):
             m = re.match(r'"((?:[^"\\]|\\.)*)"', txt[pos:])
             pos += m.end()
             return m.group(1)
+        m = re.match(r'(-?\d+)\.\.(-?\d+)', txt[pos:])
+        if m:                                   # TLC prints an integer interval as a..b
+            pos += m.end()
+            return list(range(int(m.group(1)), int(m.group(2)) + 1))
         m = re.match(r'-?\d+', txt[pos:])
         if m:
             pos += m.end()
